@@ -30,11 +30,12 @@ ASSUMPTIONS = [
 ]
 
 TREE = {"a.txt": "A-file", "index.html": "ROOT-INDEX", "x.html": "X-HTML", "..name": "DOTDOT-NAME", ".hidden": "HIDDEN", "%2e%2e": "PERCENT",
-        "é.txt": "UNICODE", "L" * 100 + "/" + "M" * 100 + "/" + "N" * 100 + ".txt": "LONG-PATH", "dir/index.html": "DIR-INDEX", "dir/b.txt": "B-file", "dir2/c.txt": "C-file", "static/inner.txt": "INNER"}
+        "é.txt": "UNICODE", "L" * 100 + "/" + "M" * 100 + "/" + "N" * 100 + ".txt": "LONG-PATH", "dir/index.html": "DIR-INDEX", "dir/b.txt": "B-file", "dir2/c.txt": "C-file", "static/inner.txt": "INNER",
+        "v1.2.html": "V12-PAGE", "dir/notes.txt.html": "NOTES-PAGE"}
 OUTSIDE = {"secret.txt": "SECRET-1", "static-secret.txt": "SECRET-2", "static2/s.txt": "SECRET-3", "a.txt": "OUTER-A", "index.html": "OUTER-INDEX"}
 DIRS = {""} | {os.path.dirname(k) for k in TREE if "/" in k} | {"L" * 100}
 SEGS = ["", ".", "..", "a.txt", "dir", "dir2", "..name", "%2e%2e", "index.html", "x", "x.html", "é.txt", "static", "static2", "secret.txt", "nope",
-        "index", "b.txt", ".hidden", "static-secret.txt", "sock"]
+        "index", "b.txt", ".hidden", "static-secret.txt", "sock", "v1.2", "notes.txt"]
 
 
 def make_special(served):
@@ -121,9 +122,10 @@ class Audit:
                 self.events.append(p)
 
 
-def observe(iface, app, path, audit, root=""):
+def observe(iface, app, path, audit, root="", query=b"", host=None):
     from baize.exceptions import HTTPException
-    req = drivers.Req(path=path.encode("utf-8"), root=root.encode("utf-8"), server=("t", 80))
+    req = drivers.Req(path=path.encode("utf-8"), root=root.encode("utf-8"), server=("t", 80), query=query,
+                      headers=[("Host", host)] if host is not None else [])
     audit.events.clear()
     audit.window = True
     try:
@@ -292,6 +294,29 @@ def run(ctx):
                             judge(ctx, audit, iface, kind, form, abs_dir, app, path, root)
                             ctx.mon("mounted-app")
                             ctx.case_enum(True)
+        # the rest of the request is none of the static apps' business: an undecodable query string or a malformed Host
+        # must not change what a path serves (a directory redirect, which has to build a URL, may answer 400 instead)
+        for (form, iface, kind), (abs_dir, app) in apps.items():
+            if form not in ("absolute", "absolute+handle_404"):
+                continue
+            for path in ["/" + rel for rel in TREE] + ["/dir", "/dir/", "/", "/nope", "/x", "/v1.2", "/dir/notes.txt", "/../secret.txt", "/sock"]:
+                for query, host in ((b"q=\xff\xfe", None), (b"", "[::1"), (b"a=%zz&&=", "exa mple:x"), (b"x=1", "h.example:8080")):
+                    got, opens = observe(iface, app, path, audit, query=query, host=host)
+                    exp = model(kind, abs_dir, path)
+                    if any(e[0] == "307" for e in exp):
+                        exp = exp | {("400",)}
+                    if form.endswith("handle_404") and ("404",) in exp:
+                        exp = exp | {("404-custom",)}
+                    ctx.mon("hostile-query-or-host")
+                    if got == ("404",) and form.endswith("handle_404"):
+                        got = ("404-custom",)
+                    case = {"iface": iface, "app": kind, "directory_form": form, "path": path, "query": query.decode("latin-1"), "host": host}
+                    if got not in exp:
+                        ctx.violation(f"outcome-depends-on-query-or-host|{kind.lower()}|{iface}", case, f"expected one of {sorted(exp)}, got {got}")
+                    for p in opens:
+                        if not (p == abs_dir or p.startswith(abs_dir + "/")):
+                            ctx.violation("open-outside-served-directory", case, f"opened {p}")
+                    ctx.case(("decorated", form, iface, kind, path, query, host))
         for (form, iface, kind), (abs_dir, app) in apps.items():
             judge(ctx, audit, iface, kind, form, abs_dir, app, "")  # PATH_INFO may be empty below a mount
             ctx.case(("empty", form, iface, kind))
